@@ -50,6 +50,30 @@ NSCarbons == "urn:xmpp:carbons:2"
 NSBlocking == "urn:xmpp:blocking"
 NSRoster == "jabber:iq:roster"
 NSExtra == "urn:x:extra"
+NSBob == "urn:xmpp:bob"
+KnownCid == "sha1+8f35fef110ffc5df08d579a50083ff9308fb6242@bob.xmpp.org"     \* the one cid the application's Get callback knows
+BobData == <<KnownCid, "text/plain", "aGk=">>                                 \* what it returns for it: cid, type, content
+
+(* Payload SHAPES.  Every request of the grammar is well-formed XML; `shape` says how far its payload is from *)
+(* what the handler it is routed to expects.  "ok" (and the kind-specific shapes the documents show) is the   *)
+(* request of the XEP; the others are requests the handler cannot decode, or can decode only in part:          *)
+(*   kids     unexpected child elements inside the payload                                                    *)
+(*   text     character data inside the payload                                                               *)
+(*   own      children named like the content of the RESPONSE, with values that do not parse (wrong child      *)
+(*            types, bad attribute values)                                                                    *)
+(*   twice    the payload element twice (RFC 6120 8.2.3: exactly one child)                                   *)
+(*   badage / badb64   bits of binary: max-age that is no number, content that is no base64                   *)
+(*   grpkid   roster item whose <group/> has an element child                                                 *)
+(* and, for the items of a block / unblock command, the shape of the abuse report (XEP-0377) inside the item: *)
+(*   ""  none;  ok  reason + <stanza-id/> + <text/>;  badby  <stanza-id by/> that is no JID;  badby2  the     *)
+(*   second of two <stanza-id/>s;  sidns  <stanza-id/> outside its namespace;  tworeports / twotext           *)
+(*   duplicated children;  textkid  element inside <text/>;  foreign  an unknown child and character data     *)
+(*   instead of a report;  noreason  report without the reason attribute                                      *)
+ReqShapes == {"kids", "text", "own", "twice"}
+MalformedShapes == ReqShapes \cup {"badage", "badb64", "grpkid", "unknown"}
+ReportShapes == {"", "ok", "badby", "badby2", "sidns", "tworeports", "twotext", "textkid", "foreign", "noreason"}
+ReportOK == "urn:xmpp:reporting:abuse|s1@room@muc.example.org|bad words"      \* summary of the well-formed report
+RepSummary(sh) == IF sh = "ok" THEN ReportOK ELSE ""
 
 VARIABLES
   cfg, script,        \* scenario: handler table / callbacks set, incoming stanzas and helper calls
@@ -68,7 +92,7 @@ IsMsg(s) == s.st = "message"
 IsCall(s) == s.st = "call"
 IsRequest(s) == s.st = "iq" /\ s.typ \in {"get", "set"}
 FromAccount(s) == s.from \in {"", OwnBare}
-ValidItem(it) == it.jid # BadJid /\ it.jid # ""
+ValidItem(it) == it.jid # BadJid /\ it.jid # "" /\ it.rep \in {"", "ok"}
 
 (* which registered handler the multiplexer hands the stanza to (exact stanza type and payload name) *)
 Route(s, c) ==
@@ -78,7 +102,7 @@ Route(s, c) ==
   ELSE CASE s.kind = "roster" /\ s.typ = "set" /\ c.roster # "off" -> "roster"
          [] s.kind \in {"block", "unblock"} /\ s.typ = "set" /\ c.block # "off" -> s.kind
          [] s.kind = "blocklist" /\ s.typ = "get" /\ c.block # "off" -> "blocklist"
-         [] s.kind \in {"ping", "version", "time", "info", "items"} /\ s.typ = "get" /\ c.resp -> s.kind
+         [] s.kind \in {"ping", "version", "time", "info", "items", "bob"} /\ s.typ = "get" /\ c.resp -> s.kind
          [] s.kind = "extra" /\ s.typ = "get" /\ c.extra -> "extra"
          [] OTHER -> None
 
@@ -87,19 +111,19 @@ Route(s, c) ==
 WF(s) ==
   CASE s.kind = "roster" -> s.shape = "ok" /\ Len(s.items) = 1 /\ ValidItem(s.items[1])
     [] s.kind = "carbon" -> s.shape \in {"ok", "delay", "bodyfirst", "bodylast"}
-    [] s.kind = "block" -> s.items # <<>> /\ \A i \in 1..Len(s.items) : ValidItem(s.items[i])   \* XEP-0191 3.3: no item = bad request
-    [] s.kind = "unblock" -> \A i \in 1..Len(s.items) : ValidItem(s.items[i])                  \* no item = unblock everything
-    [] OTHER -> TRUE
+    [] s.kind = "block" -> s.shape = "ok" /\ s.items # <<>> /\ \A i \in 1..Len(s.items) : ValidItem(s.items[i])   \* XEP-0191 3.3: no item = bad request
+    [] s.kind = "unblock" -> s.shape = "ok" /\ \A i \in 1..Len(s.items) : ValidItem(s.items[i]) /\ s.items[i].rep = ""   \* no item = unblock everything
+    [] OTHER -> s.shape \notin MalformedShapes
 
 RosterCb(s, it) == [cb |-> "roster", ver |-> s.ver, jid |-> it.jid, name |-> it.name, sub |-> it.sub, groups |-> it.groups]
 CarbonCb(s) == [cb |-> "carbon", sent |-> (s.dir = "sent"), id |-> s.inner.id, from |-> s.inner.from, to |-> s.inner.to,
                 typ |-> s.inner.typ, body |-> s.inner.body, msgs |-> 1]
-BlockCb(s, it) == [cb |-> s.kind, jid |-> it.jid]
+BlockCb(s, it) == [cb |-> s.kind, jid |-> it.jid, rep |-> IF s.kind = "block" THEN RepSummary(it.rep) ELSE ""]   \* Block is handed the report
 (* the callbacks a stanza stands for, in order *)
 CbsOf(s) ==
   CASE s.kind = "roster" -> [i \in 1..Len(s.items) |-> RosterCb(s, s.items[i])]
     [] s.kind = "carbon" -> <<CarbonCb(s)>>
-    [] s.kind = "unblock" /\ s.items = <<>> -> <<[cb |-> "unblockall", jid |-> ""]>>
+    [] s.kind = "unblock" /\ s.items = <<>> -> <<[cb |-> "unblockall", jid |-> "", rep |-> ""]>>
     [] s.kind \in {"block", "unblock"} -> [i \in 1..Len(s.items) |-> BlockCb(s, s.items[i])]
     [] OTHER -> <<>>
 CbKinds(s) ==
@@ -128,23 +152,26 @@ ListJids(c) == IF c.block # "all" THEN <<>> ELSE ListOf(c.list)
 
 Features(c, node) ==
   IF node = ""
-  THEN (IF c.resp THEN {NSPing, NSTime, NSInfo, "urn:xmpp:bookmarks:1", "urn:xmpp:bookmarks:1+notify"} ELSE {})
+  THEN (IF c.resp THEN {NSPing, NSTime, NSInfo, NSBob, "urn:xmpp:bookmarks:1", "urn:xmpp:bookmarks:1+notify"} ELSE {})
        \cup (IF c.carbons THEN {NSCarbons} ELSE {})
        \cup (IF c.extra THEN {NSExtra, NSPing, "urn:x:static"} ELSE {})
   ELSE IF node = "n1" /\ c.extra THEN {"urn:x:n1"} ELSE {}
 Idents(c, node) == IF node = "" /\ c.extra THEN {"client/bot/vt", "account/registered/"} ELSE {}
 DiscoItems(c, node) == IF node = "" /\ c.extra THEN <<"example.net#n1#sub">> ELSE <<>>
-FeatOrder == <<NSPing, NSTime, NSInfo, NSExtra, NSCarbons, "urn:xmpp:bookmarks:1+notify", "urn:xmpp:bookmarks:1", "urn:x:static", "urn:x:n1">>
+FeatOrder == <<NSPing, NSTime, NSInfo, NSBob, NSExtra, NSCarbons, "urn:xmpp:bookmarks:1+notify", "urn:xmpp:bookmarks:1", "urn:x:static", "urn:x:n1">>
 IdentOrder == <<"client/bot/vt", "account/registered/">>
 VersionInfo == <<"vt", "0.9", "tla">>
 FixedTime == <<"+02:00", "2020-01-02T03:04:05Z">>
 SetOf(q) == {q[i] : i \in 1..Len(q)}
 NoDup(q) == Cardinality(SetOf(q)) = Len(q)
 
-(* is r an acceptable reply to request s under configuration c? *)
+(* is r an acceptable reply to request s under configuration c?  What a handler answers to a request it cannot *)
+(* decode (~WF) is documented nowhere: a result, an error of any condition - but see P_AtMostOneReply,           *)
+(* P_ExactlyOneReply, P_ReplyAddressed, which hold for EVERY request                                              *)
 ReplyOK(s, c, r) ==
   LET h == Route(s, c) IN
   CASE h = None -> ErrSU(r)                  \* RFC 6120 8.4: payload not understood -> <service-unavailable/>
+    [] h \in {"blocklist", "ping", "version", "time", "info", "items", "extra", "bob"} /\ ~WF(s) -> TRUE
     [] h = "roster" ->
          IF ~FromAccount(s) THEN ErrSU(r)    \* RFC 6121 2.1.6: error or silence, never an acknowledgement
          ELSE IF ~WF(s) \/ c.roster = "oerr" THEN TRUE
@@ -161,6 +188,8 @@ ReplyOK(s, c, r) ==
                      /\ SetOf(r.b) = Idents(c, s.node) /\ NoDup(r.b)
     [] h = "items" -> r.typ = "result" /\ r.pl = "query" /\ r.ns = NSItems /\ r.node = s.node /\ r.a = DiscoItems(c, s.node)
     [] h = "extra" -> r.typ = "result" /\ r.pl = "x" /\ r.ns = NSExtra
+    [] h = "bob" -> IF s.node = KnownCid THEN r.typ = "result" /\ r.pl = "data" /\ r.ns = NSBob /\ r.a = BobData
+                    ELSE r.typ = "error" /\ r.cond = "item-not-found"      \* the stanza error the Get callback returned
     [] OTHER -> FALSE
 
 -----------------------------------------------------------------------------
@@ -286,7 +315,8 @@ Plan(s, c) ==            \* callbacks for a well-formed stanza
     [] D("OuterForInner") /\ s.kind = "carbon" -> <<[q[1] EXCEPT !.from = s.from, !.id = s.id]>>
     [] D("CallbackTwice") /\ q # <<>> -> <<q[1]>> \o q
     [] D("SkipSecondItem") /\ Len(q) >= 2 -> <<q[1]>>
-    [] D("UnblockAllForItems") /\ s.kind = "unblock" /\ s.items # <<>> -> q \o <<[cb |-> "unblockall", jid |-> ""]>>
+    [] D("UnblockAllForItems") /\ s.kind = "unblock" /\ s.items # <<>> -> q \o <<[cb |-> "unblockall", jid |-> "", rep |-> ""]>>
+    [] D("ReportDropped") /\ s.kind = "block" -> [i \in 1..Len(q) |-> [q[i] EXCEPT !.rep = ""]]
     [] OTHER -> q
 
 (* valid prefixes for the malformed case *)
@@ -312,9 +342,20 @@ RouteStep ==
                 \/ IsRequest(S) /\ queue' = queue /\ pc' = "reply"   \* or answers
                 \/ /\ queue' \in (IF h \in {"block", "unblock"} /\ cfg.block # "all" THEN {<<>>} ELSE ValidCbs(S))
                    /\ pc' = "apply"                             \* or applies what is valid
-     \/ /\ h \in {"blocklist", "ping", "version", "time", "info", "items", "extra"}
-        /\ queue' = queue /\ pc' = "reply"
+     \/ /\ h \in {"blocklist", "ping", "version", "time", "info", "items", "extra", "bob"}
+        /\ queue' = queue
+        /\ \/ pc' = "reply"
+           \/ ~WF(S) /\ pc' = "ended"             \* the handler fails on what it cannot decode
   /\ UNCHANGED <<cfg, script, k, eos, cbs, reps, reqs, ret>>
+
+(* code-like deviation: the handler answers what it cannot decode with an error - and then carries on as if  *)
+(* nothing had happened (applies what it has, acknowledges the command): two replies to one request           *)
+RouteAnswerAndCarryOn ==
+  /\ pc = "route" /\ D("ErrorThenCarriesOn")
+  /\ Route(S, cfg) \in {"roster", "block", "unblock"} /\ Authorised(S, Route(S, cfg)) /\ ~WF(S) /\ IsRequest(S)
+  /\ reps' = Append(reps, ErrRep(S, "bad-request"))
+  /\ queue' = <<>> /\ pc' = "apply"
+  /\ UNCHANGED <<cfg, script, k, eos, cbs, reqs, ret>>
 
 ApplyStep ==
   /\ pc = "apply"
@@ -349,6 +390,9 @@ HandlerReplies(s, c) ==
          IN {Rep(s, "result", "", "query", NSInfo, IF D("NodeDropped") THEN "" ELSE s.node, feats, iord)}
     [] h = "items" -> {Rep(s, "result", "", "query", NSItems, IF D("NodeDropped") THEN "" ELSE s.node, DiscoItems(c, s.node), <<>>)}
     [] h = "extra" -> {Rep(s, "result", "", "x", NSExtra, "", <<>>, <<>>)}
+    [] h = "bob" -> IF ~WF(s) THEN {ErrRep(s, "bad-request"), ErrRep(s, "item-not-found")}
+                    ELSE IF s.node = KnownCid THEN {Rep(s, "result", "", "data", NSBob, "", BobData, <<>>)}
+                    ELSE {ErrRep(s, "item-not-found")}
     [] OTHER -> {Result(s)}
 
 Mangle(r) ==
@@ -409,7 +453,7 @@ CRet ==
   /\ pc' = "finish"
   /\ UNCHANGED <<cfg, script, k, eos, queue, cbs, reps, reqs>>
 
-Next == Deliver \/ RouteStep \/ ApplyStep \/ ReplyStep \/ DefaultStep \/ FinishStep \/ EosStep \/ CReq \/ CAnswer \/ CRet
+Next == Deliver \/ RouteStep \/ RouteAnswerAndCarryOn \/ ApplyStep \/ ReplyStep \/ DefaultStep \/ FinishStep \/ EosStep \/ CReq \/ CAnswer \/ CRet
 Spec == Init /\ [][Next]_vars
 
 (* the session is not wedged: every scenario runs to the end of the stream or to a failure the rules allow *)
